@@ -360,6 +360,30 @@ def gen_hist(ctx):
                                                        {"t": "pull", "name": "ns/m:t", "manifest": {"layers": [{"blob": 1}, {"blob": 0}]}, "script": {}, "clean": True},
                                                        {"t": "pull", "name": "ns/n:t", "manifest": {"layers": [{"blob": 1}, {"blob": 2}]}, "script": {}, "clean": True}], tail=0)
 
+        # --- M: a second pull JOINS the in-flight download of a shared layer (the CDN holds that layer's body until the
+        #        second pull's manifest GET has been seen + a grace period), then the body arrives corrupt / truncated / clean
+        hold = {"key": "manifest", "n": 2, "extra_ms": 350}
+        n1 = len(b[1])
+        k1 = "cdn:1:%d" % (n1 - 1)
+        two = [{"name": "ns/m:t", "manifest": {"layers": [{"blob": 1}, {"blob": 0}]}}, {"name": "ns/n:t", "manifest": {"layers": [{"blob": 1}, {"blob": 2}]}}]
+        tails = [{"t": "pull", "name": p["name"], "manifest": json.loads(json.dumps(p["manifest"])), "script": {}, "clean": True} for p in two]
+        for kind, f in [("corrupt", {"flip": rng.randrange(n1)}), ("truncated", {"cut": rng.randrange(0, n1), "end": "unexp", "cl": n1}), ("clean", {}),
+                        ("range-ignored-long", {"raw": hx(rnd_blob(rng, n1 + 1, n1 + 5))}), ("short-clean", {"cut": rng.randrange(0, n1)})]:
+            add("join-inflight-" + kind, b[:3], [{"t": "par", "script": {k1: [dict(f, wait=hold)]}, "pulls": json.loads(json.dumps(two))}] + json.loads(json.dumps(tails)), tail=0, cost=9)
+        # previous intact model under the joiner's name, corrupt shared layer of the new one
+        add("join-inflight-corrupt-replaces", b[:4], [pull_step("ns/n:t", [{"blob": 3}]),
+                                                       {"t": "par", "script": {k1: [{"flip": rng.randrange(n1), "wait": hold}]}, "pulls": json.loads(json.dumps(two))}] + json.loads(json.dumps(tails)), tail=0, cost=9)
+        # the joiner reaches the shared layer after a layer of its own
+        n2 = len(b[2])
+        add("join-inflight-late-corrupt", b[:3], [{"t": "par", "script": {k1: [{"flip": rng.randrange(n1), "wait": {"key": "cdn:2:%d" % (n2 - 1), "n": 1, "extra_ms": 1500}}]},
+                                                   "pulls": [two[0], {"name": "ns/n:t", "manifest": {"layers": [{"blob": 2}, {"blob": 1}]}}]}] + json.loads(json.dumps(tails)), tail=0, cost=10)
+        # mirror: the joined download fails before any byte (direct URL cannot be resolved), resume state stays
+        add("join-inflight-direct-url-fails", b[:3], [{"t": "par", "script": {"get:1": [{"status": 302, "wait": hold}]}, "pulls": json.loads(json.dumps(two))}] + json.loads(json.dumps(tails)), tail=0, cost=9)
+        # one of the two clients goes away while both wait for the held layer (monitor only)
+        for who in (0, 1):
+            add("join-inflight-%s-cancelled" % ("starter", "joiner")[who], b[:3], [{"t": "par", "script": {k1: [{"wait": hold, "flip": rng.randrange(n1)} if rng.random() < 0.5 else {"wait": hold}]},
+                                                                                     "cancel": {"pull": who, "key": k1, "n": 1}, "pulls": json.loads(json.dumps(two))}] + json.loads(json.dumps(tails)), tail=0, cost=9)
+
         # --- H: the client goes away in the middle of the pull
         for key in ["head:0", "get:0", "cdn:0:%d" % (len(b[0]) - 1), "head:1", "cdn:1:%d" % (len(b[1]) - 1)]:
             st = pull_step("ns/m:t", [{"blob": 0}, {"blob": 1}], None, {})
@@ -635,10 +659,16 @@ def render_pull(ids, digests, tab, pre, step_case, so, reg_host):
         if len(hit) >= cs["n"]:
             hit[cs["n"] - 1]["cancelled"] = True
     name_rel = "%s/%s" % (reg_host, step_case["name"].replace(":", "/"))
+    plog, obs = build_plog(ids, served, [e for e in served if e["k"] == "manifest"], reg_host)
+    return "chk_pull %s %s %s %s %s %s %s %s" % (tab, cq_bool(FX), cq_store(ids, pre), cq_N(ids.name(name_rel)), plog, cq_bool(so["success"]),
+                                                 cq_store(ids, so["store"]), cq_list(obs, "obs_trace"))
+
+
+def build_plog(ids, served, manifest_entries, reg_host):
     by = {}
     for e in served:
         by.setdefault(e["k"], []).append(e)
-    mans = cq_list([cq_hresp(ids, e, served, reg_host) for e in by.get("manifest", [])], "hresp")
+    mans = cq_list([cq_hresp(ids, e, served, reg_host) for e in manifest_entries], "hresp")
     blogs, obs = [], []
     idxs = sorted(set(int(k.split(":")[1]) for k in by if k.split(":")[0] in ("head", "get", "alt", "cdn", "cdn2")))
     chunks = final_chunks(served)
@@ -661,9 +691,21 @@ def render_pull(ids, digests, tab, pre, step_case, so, reg_host):
         blogs.append("(%s, mkBlog %s %s %s)" % (cq_N(did), cq_list(heads, "hresp"), cq_list(gets, "hresp"), chs))
         orq = cq_list(["(%s, %s)" % (cq_Z(end), cq_list(["(%s, %s)" % (cq_Z(e["range"][0]), cq_Z(e["range"][1])) for e in l], "(Z * Z)")) for end, l in sorted(ch.items())], "(Z * list (Z * Z))")
         obs.append("(%s, (%s, %s, %s))" % (cq_N(did), cq_bool(bool(heads)), cq_bool(bool(gets)), orq))
-    plog = "(mkPlog %s %s)" % (mans, cq_list(blogs, "(digest * blog)"))
-    return "chk_pull %s %s %s %s %s %s %s %s" % (tab, cq_bool(FX), cq_store(ids, pre), cq_N(ids.name(name_rel)), plog, cq_bool(so["success"]),
-                                                 cq_store(ids, so["store"]), cq_list(obs, "obs_trace"))
+    return "(mkPlog %s %s)" % (mans, cq_list(blogs, "(digest * blog)")), obs
+
+
+def render_par(ids, tab, pre, sc, so, reg_host):
+    """two concurrent pulls: the i-th manifest GET belongs to the i-th pull (they are started 150 ms apart)"""
+    served = so["served"]
+    mes = [e for e in served if e["k"] == "manifest"]
+    if len(sc["pulls"]) != 2 or len(mes) != 2:
+        raise Unrenderable("concurrent step is not two pulls with one manifest request each")
+    args = []
+    for i, (p, r) in enumerate(zip(sc["pulls"], so["results"])):
+        plog, _obs = build_plog(ids, served, [mes[i]], reg_host)
+        rel = "%s/%s" % (reg_host, p["name"].replace(":", "/"))
+        args += [cq_N(ids.name(rel)), plog, cq_bool(r["success"])]
+    return "chk_par %s %s %s %s %s" % (tab, cq_bool(FX), cq_store(ids, pre), " ".join(args), cq_store(ids, so["store"]))
 
 
 EMPTY_SNAP = {"blobs": {}, "manifests": {}}
@@ -687,7 +729,13 @@ def render_hist(c, o):
             except Unrenderable as ex:
                 out.append((si, None, str(ex)))
         elif sc["t"] == "par":
-            out.append((si, None, "concurrent pulls: monitor only"))
+            if sc.get("cancel") or sc.get("nomodel"):
+                out.append((si, None, "concurrent pulls with a client going away: monitor only"))
+            else:
+                try:
+                    out.append((si, render_par(ids, tab, pre, sc, so, o["reg"]), None))
+                except Unrenderable as ex:
+                    out.append((si, None, str(ex)))
         if sc["t"] == "pull":
             if c.get("layout_total") is not None:
                 recs = sorted(((int(fn.rsplit("-", 1)[1]), e["rec"]) for fn, e in so["store"]["blobs"].items() if "-partial-" in fn))
@@ -875,10 +923,13 @@ def monitor_hist(ctx, c, o):
                               "after the failed attempts of this history, clean attempts against a fault-free registry keep failing: %s" % so.get("error"),
                               dict(replay, step=si))
         if sc["t"] == "par":
+            succ_names = set(p["name"] for p, r in zip(sc["pulls"], so["results"]) if r["success"])
             for p, r in zip(sc["pulls"], so["results"]):
-                if not r["success"]:
-                    continue
                 rel = "%s/%s" % (o["reg"], p["name"].replace(":", "/"))
+                if not r["success"]:
+                    if p["name"] not in succ_names and store["manifests"].get(rel) != prev_store["manifests"].get(rel):
+                        ctx.violation({"class": "manifest-changed-by-failed-pull", "via": "concurrent"}, "a failed concurrent pull of %s changed what the name resolves to" % p["name"], dict(replay, step=si))
+                    continue
                 m = go_manifest(so["manifests_served"][p["name"].replace(":", "/")].encode())
                 for kind, l in check_manifest_layers(store, m):
                     if kind != "size":
